@@ -63,6 +63,10 @@ pub fn group_solver(
     entries: &[&crate::resources::ResourceAllocRequest],
     weights: &[CouplingWeightItem],
 ) -> Option<(SelectedGroups, f64)> {
+    #[cfg(feature = "verif")]
+    if verif::memo_active() {
+        return verif::memoized_group_solver(free, entries, weights);
+    }
     let mut solver = LpSolver::new(false);
     let vars: SmallVec<[SmallVec<_>; FAST_MAX_COUPLED_RESOURCES]> = entries
         .iter()
@@ -152,4 +156,121 @@ pub fn group_solver(
             .collect(),
         objective_value,
     ))
+}
+
+/// Verification hook (feature `verif`): a process-wide memo of `group_solver` results keyed by
+/// its complete input. A model-checking harness re-executes the same short histories many
+/// thousands of times; the solve is a deterministic function of its arguments, so repeating
+/// it only costs time. Off unless a harness thread switches it on; every N-th hit is
+/// re-solved and compared.
+#[cfg(feature = "verif")]
+pub mod verif {
+    use super::*;
+    use std::cell::Cell;
+    use std::sync::Mutex;
+
+    type Stored = Option<(Vec<Vec<usize>>, f64)>;
+
+    struct Memo {
+        table: crate::Map<String, Stored>,
+        hits: u64,
+        misses: u64,
+        audit_failures: u64,
+    }
+
+    static MEMO: Mutex<Option<Memo>> = Mutex::new(None);
+
+    thread_local! {
+        static ENABLED: Cell<bool> = const { Cell::new(false) };
+        static BYPASS: Cell<bool> = const { Cell::new(false) };
+    }
+
+    pub fn set_group_solver_memo(enabled: bool) {
+        ENABLED.with(|e| e.set(enabled));
+    }
+
+    /// (hits, misses, audit failures)
+    pub fn group_solver_memo_stats() -> (u64, u64, u64) {
+        let g = MEMO.lock().unwrap_or_else(|e| e.into_inner());
+        g.as_ref()
+            .map(|m| (m.hits, m.misses, m.audit_failures))
+            .unwrap_or((0, 0, 0))
+    }
+
+    pub(super) fn memo_active() -> bool {
+        ENABLED.with(|e| e.get()) && !BYPASS.with(|b| b.get())
+    }
+
+    fn to_stored(r: &Option<(SelectedGroups, f64)>) -> Stored {
+        r.as_ref()
+            .map(|(g, o)| (g.iter().map(|x| x.iter().copied().collect()).collect(), *o))
+    }
+
+    fn from_stored(s: &Stored) -> Option<(SelectedGroups, f64)> {
+        s.as_ref().map(|(g, o)| {
+            (
+                g.iter().map(|x| x.iter().copied().collect()).collect(),
+                *o,
+            )
+        })
+    }
+
+    pub(super) fn memoized_group_solver(
+        free: &ConciseFreeResources,
+        entries: &[&crate::resources::ResourceAllocRequest],
+        weights: &[CouplingWeightItem],
+    ) -> Option<(SelectedGroups, f64)> {
+        let key = format!(
+            "{:?}|{:?}|{:?}",
+            free.verif_snapshot(),
+            entries,
+            weights
+                .iter()
+                .map(|w| (
+                    w.resource1.as_num(),
+                    w.group1.as_num(),
+                    w.resource2.as_num(),
+                    w.group2.as_num(),
+                    w.weight.to_bits()
+                ))
+                .collect::<Vec<_>>()
+        );
+        let (cached, audit) = {
+            let mut g = MEMO.lock().unwrap_or_else(|e| e.into_inner());
+            let m = g.get_or_insert_with(|| Memo {
+                table: crate::Map::new(),
+                hits: 0,
+                misses: 0,
+                audit_failures: 0,
+            });
+            match m.table.get(&key) {
+                Some(s) => {
+                    m.hits += 1;
+                    (Some(s.clone()), m.hits % 4096 == 0)
+                }
+                None => {
+                    m.misses += 1;
+                    (None, false)
+                }
+            }
+        };
+        if let Some(s) = cached {
+            if audit {
+                BYPASS.with(|b| b.set(true));
+                let fresh = to_stored(&super::group_solver(free, entries, weights));
+                BYPASS.with(|b| b.set(false));
+                if fresh != s {
+                    let mut g = MEMO.lock().unwrap_or_else(|e| e.into_inner());
+                    g.as_mut().unwrap().audit_failures += 1;
+                }
+            }
+            return from_stored(&s);
+        }
+        BYPASS.with(|b| b.set(true));
+        let r = super::group_solver(free, entries, weights);
+        BYPASS.with(|b| b.set(false));
+        let mut g = MEMO.lock().unwrap_or_else(|e| e.into_inner());
+        g.as_mut().unwrap().table.insert(key, to_stored(&r));
+        r
+    }
 }
